@@ -656,6 +656,16 @@ type CompletionResultDetails struct {
 	Values  []string `json:"values"`
 }
 
+// MarshalJSON ensures that the required "values" member is an array, never
+// JSON null, even if the completion handler left Values nil.
+func (d CompletionResultDetails) MarshalJSON() ([]byte, error) {
+	type details CompletionResultDetails // avoid recursion
+	if d.Values == nil {
+		d.Values = []string{}
+	}
+	return json.Marshal(details(d))
+}
+
 // The server's response to a completion/complete request
 type CompleteResult struct {
 	completeResultWithType
@@ -1018,6 +1028,10 @@ func (x *GetPromptResult) MarshalJSON() ([]byte, error) {
 		InputRequests json.RawMessage `json:"inputRequests,omitempty"` // shadows res.InputRequests
 	}
 	w := wire{res: res(*x), ResultType: x.resultType}
+	if w.res.Messages == nil && x.resultType != resultTypeInputRequired {
+		// "messages" is a required member of the result: never send JSON null.
+		w.res.Messages = []*PromptMessage{}
+	}
 	if x.InputRequests != nil {
 		ir, err := json.Marshal(x.InputRequests)
 		if err != nil {
